@@ -850,7 +850,8 @@ def run_dist(case, ctx, teneva):
         easy = int(np.sum(Pf >= 0.5 / N))
         ms = sorted({1, easy, int(rng.integers(1, easy + 1))}) if easy else []
         for j, m in enumerate(ms):
-            kw = {'unique': True} if j % 2 == 0 else {}
+            kw = {'unique': [True, np.True_, 1, np.bool_(m <= N)][int(
+                rng.integers(4))]} if j % 2 == 0 else {}
             g0 = sanit.global_rng_bytes()
             with CountRestarts(ctx):
                 I = call(ctx, 'square-unique', teneva.sample_square, Y0, m,
